@@ -33,7 +33,8 @@ def gen_cases(tier, seed):
     cases = []
     for v in oracle.ALL_VERSIONS:
         for border in ([0, None] if tier == 'quick' else [0, 1, None, 4]):
-            for scale in ([1] if (tier == 'quick' and not isinstance(v, str) and v > 10) else [1, 2]):
+            for scale in ([1] if (tier == 'quick' and not isinstance(v, str) and v > 10) else
+                          ([1, 2, 5] if (isinstance(v, str) or v <= 3 or tier == 'thorough') else [1, 2])):
                 cases.append({'kind': 'iter', 'version': v, 'seed': rng.randrange(1 << 30), 'border': border, 'scale': scale})
     for bad in ({'border': -1}, {'border': 1.5}, {'border': -0.5}, {'scale': 0}, {'scale': -1}, {'scale': 0.5}, {'scale': -2.5}):
         for verbose in (False, True):
